@@ -11,7 +11,7 @@ WORK = run.WORK
 #   crashes/wf/rf: crash and fault budgets of the random runs (rf only where the quantifier includes read errors)
 LIFE = {
     "C01": dict(models=["base_foreign", "restart"], tmodels=["t_restart3", "overlap"], fams=["other", "base", "amtless", "twohash"],
-                crashes=(0, 1), wf=0, rf=0, extra=["class"]),
+                crashes=(0, 1), wf=0, rf=0, extra=["class", "twin_key"]),
     "C02": dict(extra=["wait_timeout", "slow_decision", "write_fault"], focus=["Overlap", "Live"], models=["restart", "faults"], tmodels=["t_restart3", "t_faults2", "overlap"], fams=["base", "overlap", "amtless", "replay"],
                 crashes=(0, 1, 1), wf=1, rf=0, trf=1),
     "C03": dict(models=["base_conf", "base_amtless", "base_zero", "restart"], tmodels=["t_restart3", "base_tot"], fams=["base", "amtless", "overlap", "other"],
@@ -246,6 +246,10 @@ def build_jobs(pid, tier, seed, workdir):
         dj = scen.write_fault_jobs(start_run=runno, probes=spec.get("probes", 0))
         jobs += dj; runno += len(dj)
         sched_stats["directed write-fault schedules"] = len(dj)
+    if "twin_key" in ex:
+        dj = scen.twin_key_jobs(start_run=runno)
+        jobs += dj; runno += len(dj)
+        sched_stats["directed twin-key schedules"] = len(dj)
     if "many_parts" in ex:
         dj = scen.many_parts_jobs(start_run=runno)
         jobs += dj; runno += len(dj)
